@@ -107,3 +107,35 @@ Print Assumptions C05_truncation_error_value.
 Print Assumptions C05_truncation_is_optimal.
 Print Assumptions C05_singular_values_are_determined.
 Print Assumptions C05_no_low_rank_matrix_is_closer_in_operator_norm.
+
+From QVT Require Import Weyl EckartYoungGeneral.
+Close Scope Z_scope.
+(* Weyl's inequality: sigma_{i+j}(A + B) <= sigma_i(A) + sigma_j(B); with j = 0 the singular values move by at most the spectral norm of a
+   perturbation (they are 1-Lipschitz), which is what "to rounding" means for the values returned by the Q-SVD *)
+Theorem C05_weyl_inequality m n ra rb rc i j (Ua Va Ub Vb Uc Vc : qmat RR) (sa sb sc : nat -> R) :
+  i < ra -> j < rb -> i + j < rc ->
+  meq ra ra (qmm m (qherm Ua) Ua) qmid -> meq ra ra (qmm n (qherm Va) Va) qmid ->
+  meq rb rb (qmm m (qherm Ub) Ub) qmid -> meq rb rb (qmm n (qherm Vb) Vb) qmid ->
+  meq rc rc (qmm m (qherm Uc) Uc) qmid -> meq rc rc (qmm n (qherm Vc) Vc) qmid ->
+  (forall k, k < ra -> (0 <= sa k)%R) -> (forall a b, a <= b -> b < ra -> (sa b <= sa a)%R) ->
+  (forall k, k < rb -> (0 <= sb k)%R) -> (forall a b, a <= b -> b < rb -> (sb b <= sb a)%R) ->
+  (forall k, k < rc -> (0 <= sc k)%R) -> (forall a b, a <= b -> b < rc -> (sc b <= sc a)%R) ->
+  meq m n (@usv RR rc Uc sc Vc) (qmadd (@usv RR ra Ua sa Va) (@usv RR rb Ub sb Vb)) ->
+  (sc (i + j)%nat <= sa i + sb j)%R.
+Proof. exact (weyl_inequality m n ra rb rc i j Ua Va Ub Vb Uc Vc sa sb sc). Qed.
+(* Eckart-Young against EVERY matrix of rank <= R (X = G W with W of R rows), no orthonormal factor asked for: the discarded values bound the
+   Frobenius distance from below -- together with C05_truncation_error_value the truncation attains the optimum *)
+Theorem C05_truncation_is_optimal_against_every_low_rank_matrix m n q p (Ua Va Ux Vx Ue Ve G W : qmat RR) (sa sx se : nat -> R) :
+  p < q ->
+  meq q q (qmm m (qherm Ua) Ua) qmid -> meq q q (qmm n (qherm Va) Va) qmid ->
+  meq q q (qmm m (qherm Ux) Ux) qmid -> meq q q (qmm n (qherm Vx) Vx) qmid ->
+  meq q q (qmm m (qherm Ue) Ue) qmid -> meq q q (qmm n (qherm Ve) Ve) qmid ->
+  (forall k, k < q -> (0 <= sa k)%R) -> (forall a b, a <= b -> b < q -> (sa b <= sa a)%R) ->
+  (forall k, k < q -> (0 <= sx k)%R) -> (forall a b, a <= b -> b < q -> (sx b <= sx a)%R) ->
+  (forall k, k < q -> (0 <= se k)%R) -> (forall a b, a <= b -> b < q -> (se b <= se a)%R) ->
+  meq m n (qmm p G W) (@usv RR q Ux sx Vx) ->
+  meq m n (qmsub (@usv RR q Ua sa Va) (qmm p G W)) (@usv RR q Ue se Ve) ->
+  (@sumR RR (q - p) (fun k => sa (p + k)%nat * sa (p + k)%nat) <= frob2 m n (qmsub (@usv RR q Ua sa Va) (qmm p G W)))%R.
+Proof. exact (eckart_young_frobenius_general m n q p Ua Va Ux Vx Ue Ve G W sa sx se). Qed.
+Print Assumptions C05_weyl_inequality.
+Print Assumptions C05_truncation_is_optimal_against_every_low_rank_matrix.
